@@ -29,19 +29,20 @@ svars == <<pc, xs, ys, ds, tol, q, r, cc, p>>
 vars == <<svars, i, bad, nok>>
 
 Row == Obs[i]
-Usable(o) == o.kind = "hermite" /\ o.obs.st \in {"ok", "err"} /\ (o.obs.st = "err" \/ Len(o.xs) >= 1)
+Usable(o) == o.kind = "hermite" /\ o.obs.st \in {"ok", "err", "panic"}
 Drift(what) == PrintT(<<"DRIFT", i, what>>)
 SameSeq(s, t) == Len(s) = Len(t) /\ \A j \in 1..Len(s) : FEq(s[j][1], t[j][1]) /\ FEq(s[j][2], t[j][2])
 
 Init == HR!Init /\ i = 0 /\ bad = FALSE /\ nok = 0 /\ TLCSet(1, 0)
-RowOver == IF i = 0 THEN TRUE ELSE IF ~Usable(Row) THEN TRUE ELSE (bad \/ pc \in {"done", "err"})
+RowOver == IF i = 0 THEN TRUE ELSE IF ~Usable(Row) THEN TRUE ELSE (bad \/ pc \in {"done", "err", "panic"})
 Live == i >= 1 /\ Usable(Row) /\ ~bad
 
 NextRow == /\ i < Len(Obs) /\ RowOver
            /\ i' = i + 1 /\ bad' = FALSE /\ pc' = "idle"
            /\ UNCHANGED <<xs, ys, ds, tol, q, r, cc, p, nok>>
-Matches == IF pc' = "err" THEN Row.obs.st = "err" ELSE Row.obs.st = "ok" /\ SameSeq(p', Row.obs.coefs)
-Judge == IF pc' \in {"done", "err"}
+Matches == IF pc' = "err" THEN Row.obs.st = "err" ELSE IF pc' = "panic" THEN Row.obs.st = "panic"
+           ELSE Row.obs.st = "ok" /\ SameSeq(p', Row.obs.coefs)
+Judge == IF pc' \in {"done", "err", "panic"}
            THEN /\ bad' = ~Matches
                 /\ bad' => Drift(IF pc' = "err" \/ Row.obs.st = "err" THEN "err_exactly_for_mismatched_lengths"
                                  ELSE "coefficients_of_the_divided_difference_table_and_its_assembly")
